@@ -1354,14 +1354,14 @@ class ThirdCoreHexToFullCoreChanger(GeometryChanger):
                     f"Modifying parameters in central assembly {a} to convert from 1/3 to full core"
                 )
 
-                if not self.listOfVolIntegratedParamsToScale:
-                    # populate the list with all parameters that are VOLUME_INTEGRATED
-                    (
-                        self.listOfVolIntegratedParamsToScale,
-                        _,
-                    ) = _generateListOfParamsToScale(
-                        self._sourceReactor.core, paramsToScaleSubset=[]
-                    )
+                # populate the list with all parameters that are VOLUME_INTEGRATED; this depends on
+                # which parameters have been assigned so far, so do it at every conversion
+                (
+                    self.listOfVolIntegratedParamsToScale,
+                    _,
+                ) = _generateListOfParamsToScale(
+                    self._sourceReactor.core, paramsToScaleSubset=[]
+                )
 
                 for b in a:
                     self._scaleBlockVolIntegratedParams(b, "up")
